@@ -90,6 +90,9 @@ def variants(rng, p):
     if ini and rest:
         vs.append(('split-implicit-base', [lang.prog_txt(rest), lang.prog_txt(ini + rest[:1], implicit_base=True)]))
         vs.append(('base-after-final', [lang.prog_txt(rest + [{'part': 'final', 'head': ('cons',), 'body': [('p', ('kw', 'false'))]}] + [dict(r, part='base') for r in ini])]))
+    if ini and rest:
+        # a first file whose last line is a comment WITHOUT a final newline, then a file that starts with rules of the initial part
+        vs.append(('split-comment-tail', [lang.prog_txt(rest).rstrip('\n') + '\n% end of the first file', lang.prog_txt(ini, implicit_base=True)]))
     if ini:
         # a first file that ENDS in the initial part, a second file that repeats one of its initial statements without a #program line
         vs.append(('split-ends-initial', [lang.prog_txt(rest + ini), lang.prog_txt(ini[-1:], implicit_base=True)]))
